@@ -10,8 +10,9 @@ if ! git -C $W apply "$PATCH"; then echo "PATCH DOES NOT APPLY"; git -C /repo wo
 t0=$(date +%s)
 VERIF_REPO=$W VERIF_SEED=$SEED ./check $P --tier $TIER > /tmp/seedtest_$$.log 2>&1; rc=$?
 t1=$(date +%s)
+grep '^KNOWN-FINDING' /tmp/seedtest_$$.log | cut -c1-60 | head -12
+grep '^VIOLATION\|INFRA' /tmp/seedtest_$$.log | cut -c1-300 | head -6
 echo "rc=$rc $((t1-t0))s"
-grep '^VIOLATION\|^KNOWN-FINDING\|INFRA' /tmp/seedtest_$$.log | cut -c1-300 | head -8
 git -C /repo worktree remove --force $W
 rm -f /tmp/seedtest_$$.log
 # the run above regenerated lean/PySMT/Gen from the patched worktree: restore it from /repo
